@@ -1298,6 +1298,34 @@ func c17Levels(p *core.Program, r *core.Report) {
 		if sup == 0 {
 			probs = append(probs, "never suppresses")
 		}
+		// the limiter is keyed by the id it was given: only repeats of the same id suppress each other
+		if fi.Decl.Type.Params.NumFields() >= 1 && len(fi.Decl.Type.Params.List[0].Names) >= 1 {
+			idObj := info.Defs[fi.Decl.Type.Params.List[0].Names[0]]
+			if b, ok := idObj.Type().Underlying().(*types.Basic); ok && b.Info()&types.IsString != 0 {
+				ast.Inspect(fi.Decl.Body, func(n ast.Node) bool {
+					switch v := n.(type) {
+					case *ast.AssignStmt:
+						for _, l := range v.Lhs {
+							if lid, ok := ast.Unparen(l).(*ast.Ident); ok && info.ObjectOf(lid) == idObj {
+								probs = append(probs, "the id is rewritten before it keys the limiter ("+p.Pos(v.Pos())+"): different ids that share the rewritten form suppress each other")
+							}
+						}
+					case *ast.CallExpr:
+						if sel, ok := v.Fun.(*ast.SelectorExpr); ok && (sel.Sel.Name == "Get" || sel.Sel.Name == "Put") && len(v.Args) >= 1 {
+							if tv := info.TypeOf(v.Args[0]); tv != nil {
+								if kb, ok := tv.Underlying().(*types.Basic); ok && kb.Info()&types.IsString != 0 {
+									key := ast.Unparen(expandLocals(info, fi.Decl.Body, v.Args[0]))
+									if kid, ok := key.(*ast.Ident); !ok || info.ObjectOf(kid) != idObj {
+										probs = append(probs, "the limiter is keyed by `"+stripSpaces(types.ExprString(v.Args[0]))+"`, not by the id itself: different ids can suppress each other")
+									}
+								}
+							}
+						}
+					}
+					return true
+				})
+			}
+		}
 		fileProbs(r, "C17.ratelimit", c, pos, probs, "suppress iff now < last+sec*1000; time recorded only when passing")
 	}
 }
@@ -1439,6 +1467,25 @@ func c17Rotate(p *core.Program, r *core.Report) {
 	if !sawChange {
 		probs = append(probs, "no path reacts to a changed date unit")
 	}
+	// a Close() of the handle field inside a deferred function literal reads the field when the cycle
+	// ends, i.e. after openFile() stored the new handle: the new day's file is closed, the old one leaks
+	ast.Inspect(fi.Decl.Body, func(n ast.Node) bool {
+		ds, ok := n.(*ast.DeferStmt)
+		if !ok {
+			return true
+		}
+		lit, ok := ast.Unparen(ds.Call.Fun).(*ast.FuncLit)
+		if !ok {
+			return true
+		}
+		ast.Inspect(lit.Body, func(k ast.Node) bool {
+			if call, ok := k.(*ast.CallExpr); ok && norm(call.Fun) == "logfile.Close" {
+				probs = append(probs, "the handle field is closed inside a deferred function ("+p.Pos(call.Pos())+"): it runs after openFile() has stored the new handle, so the file just opened is the one that gets closed and every later line is lost")
+			}
+			return true
+		})
+		return true
+	})
 	fileProbs(r, "C17.rotate", c, p.Pos(fi.Decl.Pos()), uniq(probs), "every cycle examines the date; on a change the handle is closed/forgotten, the unit recorded, and openFile() follows")
 	of := logMethod(p, "openFile")
 	if of != nil {
